@@ -702,22 +702,6 @@ class StateEngine(object):
                         {"StateMachineArn": state_machine_arn}
                     )
 
-                """
-                Tidy up self.branch_metadata for current execution_arn.
-                If ExecutionFailed we need to check for outstanding terminated
-                branch messages subsequently arriving.
-                """
-                if execution_arn in self.branch_metadata:
-                    self.check_pending_results(execution_arn)
-
-                """
-                If results are still pending the metadata lingers so that the
-                stragglers can be recognised and dropped. Record that the
-                execution has ended so that the expiry "back stop" removes the
-                metadata rather than ending the execution a second time.
-                """
-                if execution_arn in self.branch_metadata:
-                    self.branch_metadata[execution_arn].ended = True
             else:
                 opentracing.tracer.active_span.set_tag("status", "SUCCEEDED")
                 execution_detail["status"] = "SUCCEEDED"
@@ -755,6 +739,26 @@ class StateEngine(object):
         )
 
         self.broadcast_notification(execution_arn, execution_detail, context)
+
+        """
+        Tidy up self.branch_metadata for current execution_arn.
+        If ExecutionFailed we need to check for outstanding terminated
+        branch messages subsequently arriving. This acknowledges the events
+        held for the terminated branches, so it is done last, after the record,
+        the history, any waiting parent and the notification have been dealt
+        with: until then the held events are what a restart would resume from.
+        """
+        if execution_failed and execution_arn in self.branch_metadata:
+            self.check_pending_results(execution_arn)
+
+            """
+            If results are still pending the metadata lingers so that the
+            stragglers can be recognised and dropped. Record that the
+            execution has ended so that the expiry "back stop" removes the
+            metadata rather than ending the execution a second time.
+            """
+            if execution_arn in self.branch_metadata:
+                self.branch_metadata[execution_arn].ended = True
 
     def update_execution_history(
             self, state_machine, execution_arn, update_type, details
